@@ -36,7 +36,8 @@ Definition model_ffd (thr : T) (th3 : T * T * T) (thrA : T) (evs : list (list T)
 Definition model_infid (thr : T) (th3 : T * T * T) (thrA : T) (evs : list (list T)) (Vs : list (Mat (T:=T))) (om : list T)
            (bs ns cs : list (Mat (T:=T))) (nc : list (list T)) (dts : list T)
            (n_idx c_idx : list nat) (use_ncd : bool) (ncd : list (list (list T))) (spec : list (list T)) :=
-  infidelity_derivative Op d om spec (model_ffd thr th3 thrA evs Vs om bs ns cs nc dts n_idx c_idx use_ncd ncd).
+  infidelity_derivative Op d thr om spec (model_ffd thr th3 thrA evs Vs om bs ns cs nc dts n_idx c_idx use_ncd ncd)
+    use_ncd ncd (select [] n_idx ns) (select [] n_idx nc) dts (times Op dts).
 (* all three observables with the shared intermediate results computed once: ((CD, FD), ID) *)
 Definition model_all (thr : T) (th3 : T * T * T) (thrA : T) (evs : list (list T)) (Vs : list (Mat (T:=T))) (om : list T)
            (bs ns cs : list (Mat (T:=T))) (nc : list (list T)) (dts : list T)
@@ -47,7 +48,7 @@ Definition model_all (thr : T) (th3 : T * T * T) (thrA : T) (evs : list (list T)
               (select [] n_idx ns) (select [] c_idx cs) (select [] n_idx nc) dts ts use_ncd ncd in
   let Bm := select [] n_idx (control_matrix_from_scratch Op d thr evs Vs Qs om bs ns nc dts ts) in
   let FD := filter_function_derivative Op (List.length n_idx) (List.length c_idx) (List.length dts) (List.length bs) (List.length om) Bm CD in
-  (CD, FD, infidelity_derivative Op d om spec FD).
+  (CD, FD, infidelity_derivative Op d thr om spec FD use_ncd ncd (select [] n_idx ns) (select [] n_idx nc) dts ts).
 End O.
 
 (* exact comparison of the identifier resolution with the implementation's index arrays *)
